@@ -363,7 +363,7 @@ def _h_ts_get(ex, st, o, args, kwargs, node):
     if path in ('Output', 'Output/Spectra'):
         return _AbsObj('H5Group', path, {})
     if o.ident == 'Output/Spectra':
-        if not ex.c.fixed['has_instrument'] or key not in st.get(st.env['_file']).items:
+        if not ex.c.fixed['has_instrument'] or key not in st.get(ex.root_env['_file']).items:
             raise _RaiseExc(st, _ExcV('KeyError', getattr(node, 'lineno', 0)))
         return _AbsObj('H5Dataset', key, {})
     raise _RaiseExc(st, _ExcV('KeyError', getattr(node, 'lineno', 0)))
@@ -422,7 +422,7 @@ TSL = Unit('C17', 'taurex.data.spectrum.taurex:TaurexSpectrum._load_from_hdf5', 
                                                       if c.mode != 'conc' else all(x > 0 for x in c.values['wn']))},
            cases=[{'has_instrument': True}, {'has_instrument': False}], bounds=[dict(N=2)],
            abstract={'call:File': _h_ts_file, 'H5Group.__getitem__': _h_ts_get,
-                     'H5Dataset.__getitem__': lambda ex, st, o, args, kwargs, node: st.get(st.env['_file']).items[o.ident]},
+                     'H5Dataset.__getitem__': lambda ex, st, o, args, kwargs, node: st.get(ex.root_env['_file']).items[o.ident]},
            native=_ts_native, gen=lambda rng: (lambda N: dict(N=N, has_instrument=rng.random() < 0.8, wn=sorted(rng.uniform(300, 9000) for _ in range(N)),
                                                             sp=[rng.uniform(0.009, 0.011) for _ in range(N)], no=[rng.uniform(1e-5, 1e-4) for _ in range(N)],
                                                             ww=[rng.uniform(1, 50) for _ in range(N)]))(rng.randint(1, 6)),
@@ -440,7 +440,7 @@ def _os_params(c):
 
 def _h_os_loadtxt(ex, st, args, kwargs, node):
     st.trace.append(('ev', ('loadtxt', args[0], tuple(sorted(kwargs)))))
-    return st.env['_table']
+    return ex.root_env['_table']
 
 
 def _h_os_init(ex, st, args, kwargs, node):
@@ -561,7 +561,7 @@ HOB = Unit(['C17', 'C16'], 'taurex.util.hdf5:taurex_hdf5_to_observation', _ho_pa
                                                             c.Forall(0, c.Len(v._file['instrument_wngrid']), lambda i: v._file['instrument_wngrid'][i] > 0))
                                                       if c.mode != 'conc' else all(x > 0 for x in c.values['wn']))},
            abstract={'call:File': _h_ts_file, 'H5Group.__getitem__': lambda ex, st, o, args, kwargs, node: _ho_get(ex, st, o, args, node),
-                     'H5Dataset.__getitem__': lambda ex, st, o, args, kwargs, node: st.get(st.env['_file']).items[o.ident], 'new:ArraySpectrum': _h_ho_new},
+                     'H5Dataset.__getitem__': lambda ex, st, o, args, kwargs, node: st.get(ex.root_env['_file']).items[o.ident], 'new:ArraySpectrum': _h_ho_new},
            native=_ho_native, gen=lambda rng: (lambda N: dict(N=N, wn=sorted(rng.uniform(300, 9000) for _ in range(N)), sp=[rng.uniform(0.009, 0.011) for _ in range(N)],
                                                             no=[rng.uniform(1e-5, 1e-4) for _ in range(N)], ww=[rng.uniform(1, 50) for _ in range(N)]))(rng.randint(1, 6)),
            short='taurex_hdf5_to_observation',
@@ -574,6 +574,6 @@ def _ho_get(ex, st, o, args, node):
     path = (o.ident + '/' + key).lstrip('/')
     if path in ('Output', 'Output/Spectra'):
         return _AbsObj('H5Group', path, {})
-    if o.ident == 'Output/Spectra' and key in st.get(st.env['_file']).items:
+    if o.ident == 'Output/Spectra' and key in st.get(ex.root_env['_file']).items:
         return _AbsObj('H5Dataset', key, {})
     raise _RaiseExc(st, _ExcV('KeyError', getattr(node, 'lineno', 0)))
